@@ -11,3 +11,4 @@ import BV.C15.LemmasAmt2
 import BV.C15.LemmasIdx
 import BV.C15.LemmasMore
 import BV.C15.LemmasBest
+import BV.C15.LemmasMore2
